@@ -373,6 +373,10 @@ def arm_torn_write(real_save_json, data, file, torn):
 # one round = one process incarnation running the batch on the output file
 # ---------------------------------------------------------------------------
 
+class _ViaRunFileDone(Exception):
+    pass
+
+
 class Stop(BaseException):
     """Hard stop between trials (not a KeyboardInterrupt: no handler in
     panqec may swallow it) -- models the process vanishing at that point."""
@@ -380,7 +384,8 @@ class Stop(BaseException):
 
 def run_round(spec, out_file, target, save_frequency, incarnation,
               snap_dir=None, stop_after_trials=None, stop_kind='kill',
-              torn=None, line_failpoint=None, spec_types=None):
+              torn=None, line_failpoint=None, spec_types=None,
+              via_run_file=False):
     """Build a fresh BatchSimulation from the spec on out_file and run it to
     `target` trials.  Returns dict(status, saves, events...)."""
     import contextlib
@@ -405,6 +410,17 @@ def run_round(spec, out_file, target, save_frequency, incarnation,
     fp = None
     try:
         with contextlib.redirect_stdout(io.StringIO()):
+            if via_run_file:
+                # the entry point the CLI tasks use: specification read from
+                # a file, progress written to a log file kept between runs
+                from panqec.simulation import _batch_simulation as _bs
+                inp = out_file + '.input.json'
+                with open(inp, 'w') as f:
+                    json.dump(spec, f)
+                _bs.run_file(inp, out_file, target,
+                             log_file=out_file + '.progress.log',
+                             verbose=False)
+                raise _ViaRunFileDone()
             batch = read_input_dict(typed_spec(spec, spec_types), out_file,
                                     verbose=False,
                                     save_frequency=save_frequency)
@@ -418,6 +434,8 @@ def run_round(spec, out_file, target, save_frequency, incarnation,
                     fp.stop()
                     info['line_events'] = fp.count
                     info['fired_at'] = fp.fired_at
+    except _ViaRunFileDone:
+        pass
     except Stop:
         info['status'] = 'stopped'
     except KeyboardInterrupt:
